@@ -146,7 +146,11 @@ class Indicator(_DomainObject):
     def _check_object_constraints(self):
         super(Indicator, self)._check_object_constraints()
 
-        errors = run_validator(self.get('pattern'), '2.0')
+        try:
+            errors = run_validator(self.get('pattern'), '2.0')
+        except Exception as exc:
+            # the validator is not robust against every malformed input
+            raise InvalidValueError(self.__class__, 'pattern', str(exc)) from exc
         if errors:
             raise InvalidValueError(self.__class__, 'pattern', str(errors[0]))
 
